@@ -28,1076 +28,10 @@ From GoArt Require Import Base.Bytes Model.Node4 Model.Node16 Model.Node Model.T
 From GoArt Require Import Proofs.RangeFacts Proofs.ApiFacts Model.Pool Proofs.PoolFacts Model.PoolTree Proofs.PoolTreeFacts.
 From GoArt Require Import Model.GoArith Model.GoTree Gen.Node4Gen Gen.Node16Gen Gen.TreeGen Proofs.TranslateTreeFacts
   Gen.IterGen Proofs.TranslateIterFacts Gen.ApiGen.
+From GoArt Require Export Proofs.TranslateApiBase Proofs.TranslateApiRange Proofs.TranslateApiPrefix Proofs.TranslateApiWrap.
 From Coq Require Import ZifyN ZifyNat ZifyBool.
 Ltac Zify.zify_post_hook ::= Z.div_mod_to_equations.
 Open Scope N_scope.
-
-(* ================= 0. the reading of a result ================= *)
-Definition kres_out {K} (inj : K -> akey) (r : kres K) : out :=
-  match r with
-  | KDone ByFuel _ _ => OFuel
-  | KDone _ c l => OSeq (map (fun kv => (inj (fst kv), snd kv)) (rev l)) c
-  | KPanic => OPanic
-  | KFuel => OFuel
-  end.
-Definition gopt_out {K} (inj : K -> akey) (r : gres (option (K * Z))) : out :=
-  match r with
-  | GRet (Some kv) => OKV (inj (fst kv)) (snd kv)
-  | GRet None => ONone
-  | GPanic => OPanic
-  | GFuel => OFuel
-  end.
-(* the Go side of the collation tree returns the ORIGINAL string only; the model's key AC o c also carries the
-   sort key the collator computed.  out_keymap f forgets it on the model's side. *)
-Definition out_keymap (f : akey -> akey) (o : out) : out :=
-  match o with
-  | OKV k v => OKV (f k) v
-  | OSeq l c => OSeq (map (fun kv => (f (fst kv), snd kv)) l) c
-  | x => x
-  end.
-Lemma out_keymap_id : forall o, out_keymap (fun a => a) o = o.
-Proof.
-  intros [| | | | | | |l c| |]; try reflexivity. cbn [out_keymap]. f_equal.
-  induction l as [|[a v] l IH]; [reflexivity|]. cbn [map fst snd]. rewrite IH. reflexivity.
-Qed.
-
-(* ================= 1. what a walk delivers ================= *)
-(* the leaves delivered are leaves of the trees on the stack *)
-Definition leaf_in (P : lrec -> Prop) (l : tree) : Prop :=
-  match l with Leaf gk tk v => P (gk, tk, v) | Inner _ => False end.
-
-Section Delivered.
-Variable leaf_act : tree -> lact.
-Variable expand : rnode tree -> nat -> option (list (tree * nat)).
-Variable P : lrec -> Prop.
-Hypothesis expand_children : forall n d es, expand n d = Some es -> forall e, In e es -> In (fst e) (nchildren n).
-
-Lemma walk_delivered : forall fuel stk ans i acc,
-  Forall (fun e => Forall P (leaves (fst e))) stk -> Forall (leaf_in P) acc ->
-  Forall (leaf_in P) (delivered (walk leaf_act expand fuel stk ans i acc)).
-Proof.
-  induction fuel as [|f IH]; intros stk ans i acc Hs Ha.
-  - cbn [walk delivered]. apply Forall_rev. exact Ha.
-  - destruct stk as [|[t d] st]; cbn [walk].
-    + cbn [delivered]. apply Forall_rev. exact Ha.
-    + apply Forall_cons_iff in Hs. destruct Hs as [Ht Hs]. cbn [fst] in Ht.
-      destruct t as [gk tk v|n].
-      * assert (Hl : leaf_in P (Leaf gk tk v)).
-        { rewrite leaves_leaf in Ht. apply Forall_cons_iff in Ht. exact (proj1 Ht). }
-        destruct (leaf_act (Leaf gk tk v)).
-        -- destruct (ans i).
-           ++ apply IH; [exact Hs|constructor; assumption].
-           ++ cbn [delivered]. apply Forall_rev. constructor; assumption.
-        -- apply IH; assumption.
-        -- cbn [delivered]. apply Forall_rev. exact Ha.
-      * destruct (expand n d) as [es|] eqn:Ee.
-        -- apply IH; [|exact Ha]. apply Forall_app. split; [|exact Hs].
-           apply Forall_forall. intros e He. pose proof (expand_children n d es Ee e He) as Hc.
-           apply in_nchildren in Hc. destruct Hc as [b Hc].
-           rewrite Forall_forall in Ht |- *. intros l Hl. apply Ht. apply in_leaves_inner. exists b, (fst e). split; assumption.
-        -- apply IH; assumption.
-Qed.
-End Delivered.
-
-Lemma in_with_depth : forall d cs e, In e (with_depth d cs) -> In (fst e) cs.
-Proof. intros d cs e H. unfold with_depth in H. apply in_map_iff in H. destruct H as (c & <- & Hc). exact Hc. Qed.
-Lemma expand_fwd_children : forall n d es, expand_fwd n d = Some es -> forall e, In e es -> In (fst e) (nchildren n).
-Proof. intros n d es H e He. unfold expand_fwd in H. injection H as <-. eapply in_with_depth. exact He. Qed.
-Lemma expand_bwd_children : forall n d es, expand_bwd n d = Some es -> forall e, In e es -> In (fst e) (nchildren n).
-Proof. intros n d es H e He. unfold expand_bwd in H. injection H as <-. apply in_with_depth in He. apply in_rev. exact He. Qed.
-Lemma expand_range_children : forall s n d es, expand_range s n d = Some es -> forall e, In e es -> In (fst e) (nchildren n).
-Proof.
-  intros s n d es H e He. unfold expand_range in H. cbv zeta in H.
-  destruct (if _ : bool then _ else false); [discriminate|]. injection H as <-. eapply in_with_depth. exact He.
-Qed.
-
-Lemma Forall_takeN : forall {A} (Q : A -> Prop) k l, Forall Q l -> Forall Q (takeN k l).
-Proof.
-  intros A Q k l. revert k. induction l as [|x l IH]; intros k H; cbn [takeN]; [constructor|].
-  apply Forall_cons_iff in H. destruct H as [Hx Hl]. destruct (k =? 0); [constructor|]. constructor; [exact Hx|apply IH; exact Hl].
-Qed.
-
-(* ================= 2. seq_kv: the leaves a scan passes on, restored ================= *)
-(* R is the regenerated restoreKey; on the leaves the model's scan w delivers it returns what the model's
-   restore_kv returns (read through inj on the Go side and g on the model's side) *)
-Lemma seq_kv_out : forall {K} (inj : K -> akey) (g : akey -> akey) (k : Api.kind) (R : gref -> gres (K * Z))
-    (P : lrec -> Prop) r w,
-  ires_abs r = Some w -> Forall (leaf_in P) (delivered w) ->
-  (forall gk tk v, P (gk, tk, v) -> exists kv, R (Some (XLeaf gk tk v)) = GRet kv /\
-     inj (fst kv) = g (restore k (Leaf gk tk v)) /\ snd kv = v) ->
-  kres_out inj (seq_kv R r) = out_keymap g (seq_out k w).
-Proof.
-  intros K inj g k R P r w Hr Hd HR. destruct r as [how c acc| |]; cbn [ires_abs] in Hr; try discriminate.
-  injection Hr as <-. cbn [delivered] in Hd. unfold seq_out. cbn [status delivered calls seq_kv].
-  assert (Hl : exists l, restore_list R acc = Some l /\
-            map (fun kv => (inj (fst kv), snd kv)) l = map (fun kv => (g (fst kv), snd kv)) (map (restore_kv k) (map tabs acc))).
-  { apply Forall_rev in Hd. rewrite rev_involutive in Hd. clear how c.
-    induction acc as [|x acc IH]; [exists []; split; reflexivity|].
-    cbn [map] in Hd. apply Forall_cons_iff in Hd. destruct Hd as [Hx Hd]. destruct (IH Hd) as (l & El & Em).
-    destruct (tabs x) as [gk tk v|n] eqn:Ex; [|contradiction Hx]. cbn [leaf_in] in Hx.
-    apply tabs_leaf_inv in Ex. subst x. destruct (HR gk tk v Hx) as (kv & Ek & Ei & Ev).
-    exists (kv :: l). split.
-    - cbn [restore_list]. rewrite Ek, El. reflexivity.
-    - cbn [map tabs]. rewrite Em. unfold restore_kv at 1. cbn [fst snd leaf_v]. rewrite Ei, Ev. reflexivity. }
-  destruct Hl as (l & El & Em). rewrite El. cbn [kres_out].
-  destruct how; cbn [status_of out_keymap]; try reflexivity; rewrite !map_rev, Em; reflexivity.
-Qed.
-
-(* the bounded wrappers: what TranslateIterFacts.gen_topK_eq / gen_bottomK_eq state about the closure is what
-   seq_out reads *)
-Lemma bounded_out : forall {K} (inj : K -> akey) (g : akey -> akey) (k : Api.kind) (R : gref -> gres (K * Z))
-    (P : lrec -> Prop) (r : ires) (w : wres),
-  (exists how c acc, r = IDone how c acc /\ rev (map tabs acc) = delivered w /\ c = calls w /\ bounded_status how (status w)) ->
-  Forall (leaf_in P) (delivered w) ->
-  (forall gk tk v, P (gk, tk, v) -> exists kv, R (Some (XLeaf gk tk v)) = GRet kv /\
-     inj (fst kv) = g (restore k (Leaf gk tk v)) /\ snd kv = v) ->
-  kres_out inj (seq_kv R r) = out_keymap g (seq_out k w).
-Proof.
-  intros K inj g k R P r w (how & c & acc & -> & Hd & Hc & Hs) HF HR.
-  rewrite (seq_kv_out inj g k R P (IDone how c acc) (mkWres (rev (map tabs acc)) c (status_of how))); [|reflexivity| |exact HR].
-  - unfold seq_out. cbn [status delivered calls]. rewrite Hd, Hc. f_equal.
-    destruct how; cbn [status_of bounded_status] in *; try (rewrite Hs; reflexivity).
-    destruct Hs as [Hs|Hs]; rewrite Hs; reflexivity.
-  - cbn [delivered]. rewrite Hd. exact HF.
-Qed.
-
-(* ================= 3. the codecs; restoreKey ================= *)
-(* The codec fields are not translated: tr / rs are parameters.  They are instantiated with the model's view of
-   each codec:
-     numeric and compound trees   K := akey, tr := Api.transform k, rs b := Api.restore k (a leaf with getKey b)
-     alpha                        K = list N; the Go codec AlphabeticalOrderKey is the identity on bytes (rs b := b; tr is
-                                  never called by these methods); the terminator the model's transform adds and
-                                  its restore drops is added and dropped by the TREE (regenerated: ++ [0], slice_to)
-     collation                    K = list N; tr o := (o, col o) for the collator col; rs is never called *)
-Definition mtr (k : Api.kind) : akey -> list N * list N := transform k.
-Definition mrs (k : Api.kind) : list N -> akey := fun b => restore k (Leaf b b 0%Z).
-Definition alpha_rs : list N -> list N := fun b => b.
-Definition col_tr (col : list N -> list N) : list N -> list N * list N := fun o => (o, col o).
-Definition forget_col (a : akey) : akey := AB (akey_bytes a).
-
-Definition plain_kind (k : Api.kind) : bool := match k with KAlpha | KCollation => false | _ => true end.
-Lemma mrs_restore : forall k gk tk v, plain_kind k = true -> mrs k gk = restore k (Leaf gk tk v).
-Proof. intros [|w|w|w| |s|enc dec] gk tk v H; try discriminate; reflexivity. Qed.
-Lemma mtr_same : forall k a, plain_kind k = true -> fst (mtr k a) = snd (mtr k a).
-Proof. intros k a H. apply transform_same. intros ->. discriminate. Qed.
-
-(* what the regenerated restoreKey R returns on the leaves satisfying P, against Api.restore *)
-Definition restore_ok {K} (inj : K -> akey) (g : akey -> akey) (k : Api.kind) (R : gref -> gres (K * Z)) (P : lrec -> Prop) : Prop :=
-  forall gk tk v, P (gk, tk, v) -> exists kv, R (Some (XLeaf gk tk v)) = GRet kv /\
-    inj (fst kv) = g (restore k (Leaf gk tk v)) /\ snd kv = v.
-Definition any_key : lrec -> Prop := fun _ => True.
-Definition nonempty_key : lrec -> Prop := fun l => lgk l <> [].
-Definition idk : akey -> akey := fun a => a.
-
-(* the template text of restoreKey without AddNullByte *)
-Definition ref_restoreKey {K} (rs : list N -> K) (ptr : gref) : gres (K * Z) :=
-  match cast_leaf ptr with None => GPanic | Some l => GRet (rs (xleaf_gk l), xleaf_v l) end.
-Lemma ref_restoreKey_ok : forall k, plain_kind k = true -> restore_ok idk idk k (ref_restoreKey (mrs k)) any_key.
-Proof.
-  intros k Hk gk tk v _. eexists. split; [reflexivity|]. cbn [fst snd]. split; [|reflexivity].
-  unfold idk. apply mrs_restore. exact Hk.
-Qed.
-
-Theorem gen_unsigned_restoreKey_eq : forall K tr rs, g_unsigned_restoreKey K tr rs = ref_restoreKey rs.
-Proof. reflexivity. Qed.
-Theorem gen_signed_restoreKey_eq : forall K tr rs, g_signed_restoreKey K tr rs = ref_restoreKey rs.
-Proof. reflexivity. Qed.
-Theorem gen_float_restoreKey_eq : forall K tr rs, g_float_restoreKey K tr rs = ref_restoreKey rs.
-Proof. reflexivity. Qed.
-Theorem gen_compound_restoreKey_eq : forall K tr rs, g_compound_restoreKey K tr rs = ref_restoreKey rs.
-Proof. reflexivity. Qed.
-
-(* alpha: keyS[:len(keyS)-1] panics on an empty key (Api.restore uses removelast, which is total): the equality
-   holds for the non-empty keys, i.e. for everything an alpha tree stores (alpha_keys_reachable below) *)
-Lemma slice_to_removelast : forall (l : list N), l <> [] ->
-  slice_to l (Z.of_nat (length l) - 1) = Some (removelast l).
-Proof.
-  intros l Hl. destruct l as [|x l]; [congruence|]. rewrite removelast_firstn_len.
-  replace (Z.of_nat (length (x :: l)) - 1)%Z with (Z.of_nat (Init.Nat.pred (length (x :: l)))) by (cbn [length]; lia).
-  apply slice_to_nat. cbn [length]. lia.
-Qed.
-Theorem gen_alpha_restoreKey_eq : forall tr rs gk tk v, gk <> [] ->
-  g_alpha_restoreKey tr rs (Some (XLeaf gk tk v)) = GRet (rs (removelast gk), v).
-Proof.
-  intros tr rs gk tk v H. unfold g_alpha_restoreKey. cbn [cast_leaf xleaf_gk xleaf_v]. cbv zeta.
-  rewrite (slice_to_removelast gk H). reflexivity.
-Qed.
-Theorem gen_alpha_restoreKey_empty : forall tr rs tk v, g_alpha_restoreKey tr rs (Some (XLeaf [] tk v)) = GPanic.
-Proof. reflexivity. Qed.
-Lemma alpha_restoreKey_ok : forall tr, restore_ok AB idk KAlpha (g_alpha_restoreKey tr alpha_rs) nonempty_key.
-Proof.
-  intros tr gk tk v H. unfold nonempty_key, lgk in H. cbn [fst] in H. eexists. split; [apply gen_alpha_restoreKey_eq; exact H|].
-  split; reflexivity.
-Qed.
-Theorem gen_collation_restoreKey_eq : forall tr rs gk tk v,
-  g_collation_restoreKey tr rs (Some (XLeaf gk tk v)) = GRet (gk, v).
-Proof. reflexivity. Qed.
-Lemma collation_restoreKey_ok : forall tr rs, restore_ok AB forget_col KCollation (g_collation_restoreKey tr rs) any_key.
-Proof. intros tr rs gk tk v _. eexists. split; [reflexivity|]. split; reflexivity. Qed.
-(* on nil, and on a pointer to an inner node, every restoreKey panics (a nil dereference / a stuck conversion) *)
-Theorem gen_restoreKey_nil : forall K (tr : K -> list N * list N) rs tr' rs',
-  g_unsigned_restoreKey K tr rs None = GPanic /\ g_alpha_restoreKey tr' rs' None = GPanic /\
-  g_collation_restoreKey tr' rs' None = GPanic.
-Proof. intros. repeat split. Qed.
-
-(* ================= 4. the wrappers around one scan: All, Backward, TopK, BottomK, Minimum, Maximum, Size ================= *)
-Definition keys_ok (P : lrec -> Prop) (st : xstate) : Prop :=
-  match xroot st with Some t => Forall P (leaves (tabs t)) | None => True end.
-Lemma keys_ok_any : forall st, keys_ok any_key st.
-Proof. intros st. unfold keys_ok. destruct (xroot st); [|exact I]. apply Forall_forall. intros; exact I. Qed.
-
-Section Wrappers.
-Context {K : Type} (inj : K -> akey) (g : akey -> akey) (k : Api.kind) (R : gref -> gres (K * Z)) (P : lrec -> Prop).
-Hypothesis HR : restore_ok inj g k R P.
-
-Lemma stack1 : forall t, Forall P (leaves (tabs t)) -> Forall (fun e : tree * nat => Forall P (leaves (fst e))) [(tabs t, 0%nat)].
-Proof. intros t H. constructor; [exact H|constructor]. Qed.
-
-Lemma all_out : forall st fa ans, sinv st -> keys_ok P st -> (forall t, xroot st = Some t -> fa = walk_fuel (tabs t)) ->
-  kres_out inj (seq_kv R (g_all fa (xroot st) ans)) = out_keymap g (seq_out k (run_all (root (sabs st)) ans)).
-Proof.
-  intros st fa ans Hs Hk Hf. unfold sinv, keys_ok in *. rewrite sabs_root. destruct (xroot st) as [t|]; [|reflexivity].
-  rewrite (Hf t eq_refl). apply (seq_kv_out inj g k R P); [apply gen_all_eq; exact Hs| |exact HR].
-  apply walk_delivered; [exact expand_fwd_children|apply stack1; exact Hk|constructor].
-Qed.
-Lemma backward_out : forall st fb ans, sinv st -> keys_ok P st -> (forall t, xroot st = Some t -> fb = walk_fuel (tabs t)) ->
-  kres_out inj (seq_kv R (g_backward fb (xroot st) ans)) = out_keymap g (seq_out k (run_backward (root (sabs st)) ans)).
-Proof.
-  intros st fb ans Hs Hk Hf. unfold sinv, keys_ok in *. rewrite sabs_root. destruct (xroot st) as [t|]; [|reflexivity].
-  rewrite (Hf t eq_refl). apply (seq_kv_out inj g k R P); [apply gen_backward_eq; exact Hs| |exact HR].
-  apply walk_delivered; [exact expand_bwd_children|apply stack1; exact Hk|constructor].
-Qed.
-
-(* TopK(n) = topK over the tree's own Backward(); n is a Go uint *)
-Lemma topk_out : forall st fa fb n ans, sinv st -> keys_ok P st -> n < 2 ^ 64 ->
-  (forall t, xroot st = Some t -> fb = walk_fuel (tabs t)) ->
-  kres_out inj (seq_kv R (g_topK (g_all fa (xroot st)) (g_backward fb (xroot st)) n ans)) =
-  out_keymap g (seq_out k (run_bounded (run_backward (root (sabs st))) n ans)).
-Proof.
-  intros st fa fb n ans Hs Hk Hn Hf. unfold sinv, keys_ok in *. rewrite sabs_root.
-  destruct (N.eqb_spec n 0) as [->|Hn0].
-  { destruct (xroot st); reflexivity. }
-  destruct (xroot st) as [t|].
-  - rewrite (Hf t eq_refl). apply (bounded_out inj g k R P); [apply gen_topK_tree; [lia|exact Hn|exact Hs]| |exact HR].
-    unfold run_bounded. destruct (n =? 0); [constructor|]. cbn [delivered]. apply Forall_takeN.
-    apply walk_delivered; [exact expand_bwd_children|apply stack1; exact Hk|constructor].
-  - unfold g_topK, run_bounded, run_backward. cbv zeta. destruct (N.eqb_spec n 0) as [E|_]; [contradiction|].
-    cbv [range_over g_backward ref_is_nil ref_pointer]. cbn [rev range_fold delivered calls status takeN seq_kv restore_list kres_out map seq_out out_keymap N.of_nat].
-    destruct (N.leb_spec 0 n); [reflexivity|lia].
-Qed.
-Lemma bottomk_out : forall st fa fb n ans, sinv st -> keys_ok P st -> n < 2 ^ 64 ->
-  (forall t, xroot st = Some t -> fa = walk_fuel (tabs t)) ->
-  kres_out inj (seq_kv R (g_bottomK (g_all fa (xroot st)) (g_backward fb (xroot st)) n ans)) =
-  out_keymap g (seq_out k (run_bounded (run_all (root (sabs st))) n ans)).
-Proof.
-  intros st fa fb n ans Hs Hk Hn Hf. unfold sinv, keys_ok in *. rewrite sabs_root.
-  destruct (N.eqb_spec n 0) as [->|Hn0].
-  { destruct (xroot st); reflexivity. }
-  destruct (xroot st) as [t|].
-  - rewrite (Hf t eq_refl). apply (bounded_out inj g k R P); [apply gen_bottomK_tree; [lia|exact Hn|exact Hs]| |exact HR].
-    unfold run_bounded. destruct (n =? 0); [constructor|]. cbn [delivered]. apply Forall_takeN.
-    apply walk_delivered; [exact expand_fwd_children|apply stack1; exact Hk|constructor].
-  - unfold g_bottomK, run_bounded, run_all. cbv zeta. destruct (N.eqb_spec n 0) as [E|_]; [contradiction|].
-    cbv [range_over g_all ref_is_nil ref_pointer]. cbn [rev range_fold delivered calls status takeN seq_kv restore_list kres_out map seq_out out_keymap N.of_nat].
-    destruct (N.leb_spec 0 n); [reflexivity|lia].
-Qed.
-
-(* the template text of Minimum / Maximum over the regenerated minimum / maximum *)
-Definition ref_extreme (ext : nat -> gref -> gres gref) (fm : nat) (root : gref) : gres (option (K * Z)) :=
-  match ext fm root with
-  | GRet l =>
-    if negb (ref_is_nil l) then
-      match R l with
-      | GRet r => GRet (Some (fst r, snd r))
-      | GPanic => GPanic
-      | GFuel => GFuel
-      end
-    else GRet None
-  | GPanic => GPanic
-  | GFuel => GFuel
-  end.
-
-Lemma extreme_leaf : forall t (ext : nat -> gref -> gres gref) (lf : nat -> tree -> option tree) (pick : list lrec -> option lrec) fm,
-  (gres_map (option_map tabs) (ext fm (Some t)) = match lf fm (tabs t) with Some l => GRet (Some l) | None => GFuel end) ->
-  lf fm (tabs t) = option_map to_leaf (pick (leaves (tabs t))) ->
-  (forall l, pick (leaves (tabs t)) = Some l -> In l (leaves (tabs t))) -> pick (leaves (tabs t)) <> None ->
-  Forall P (leaves (tabs t)) ->
-  gopt_out inj (ref_extreme ext fm (Some t)) =
-  out_keymap g (match lf fm (tabs t) with Some l => OKV (restore k l) (leaf_v l) | None => ONone end).
-Proof.
-  intros t ext lf pick fm He Hl Hin Hne HP. unfold ref_extreme. rewrite Hl in *.
-  destruct (pick (leaves (tabs t))) as [lr|] eqn:Ep; [|congruence]. cbn [option_map] in *.
-  destruct (ext fm (Some t)) as [[m|]| |]; cbn [gres_map option_map] in He; try discriminate.
-  injection He as Em. unfold to_leaf in Em. apply tabs_leaf_inv in Em. subst m. cbn [ref_is_nil negb].
-  rewrite Forall_forall in HP. pose proof (HP lr (Hin lr eq_refl)) as Hp. destruct lr as [[gk tk] v]. cbn [lgk ltk lv fst snd].
-  destruct (HR gk tk v Hp) as (kv & Ek & Ei & Ev). rewrite Ek. cbn [gopt_out fst snd out_keymap leaf_v].
-  unfold to_leaf. cbn [lgk ltk lv fst snd leaf_v]. rewrite Ei, Ev. reflexivity.
-Qed.
-
-Lemma hd_error_in : forall {A} (l : list A) x, hd_error l = Some x -> In x l.
-Proof. intros A [|y l] x H; [discriminate|]. injection H as ->. left. reflexivity. Qed.
-
-Lemma minimum_out : forall st fm, sinv st -> root_wf (sabs st) -> keys_ok P st ->
-  (forall t, xroot st = Some t -> fm = theight (tabs t)) ->
-  gopt_out inj (ref_extreme g_minimum fm (xroot st)) = out_keymap g (snd (step k (sabs st) Minimum)).
-Proof.
-  intros st fm Hs Hw Hk Hf. unfold sinv, root_wf, keys_ok in *. cbn [step snd]. unfold opt_min. rewrite sabs_root in *.
-  destruct (xroot st) as [t|].
-  - rewrite (Hf t eq_refl). unfold minimum.
-    apply (extreme_leaf t g_minimum minleaf (@hd_error lrec)).
-    + apply (gen_minimum_eq _ t 0%nat Hs Hw).
-    + apply (minleaf_spec _ 0%nat); [lia|exact Hw].
-    + intros l. apply hd_error_in.
-    + pose proof (WF_nonempty _ _ Hw) as Hne. destruct (leaves (tabs t)); [congruence|discriminate].
-    + exact Hk.
-  - unfold ref_extreme. destruct fm; reflexivity.
-Qed.
-Lemma maximum_out : forall st fm, sinv st -> root_wf (sabs st) -> keys_ok P st ->
-  (forall t, xroot st = Some t -> fm = theight (tabs t)) ->
-  gopt_out inj (ref_extreme g_maximum fm (xroot st)) = out_keymap g (snd (step k (sabs st) Maximum)).
-Proof.
-  intros st fm Hs Hw Hk Hf. unfold sinv, root_wf, keys_ok in *. cbn [step snd]. unfold opt_max. rewrite sabs_root in *.
-  destruct (xroot st) as [t|].
-  - rewrite (Hf t eq_refl). unfold maximum.
-    apply (extreme_leaf t g_maximum maxleaf (fun l => hd_error (rev l))).
-    + apply (gen_maximum_eq _ t 0%nat Hs Hw).
-    + apply (maxleaf_spec _ 0%nat); [lia|exact Hw].
-    + intros l H. apply in_rev. apply hd_error_in. exact H.
-    + pose proof (WF_nonempty _ _ Hw) as Hne. destruct (rev (leaves (tabs t))) eqn:E; [|discriminate].
-      apply (f_equal (@rev _)) in E. rewrite rev_involutive in E. cbn [rev] in E. congruence.
-    + exact Hk.
-  - unfold ref_extreme. destruct fm; reflexivity.
-Qed.
-End Wrappers.
-
-(* ================= 5. the scans behind Range and Prefix ================= *)
-Section Scans.
-Context {K : Type} (inj : K -> akey) (g : akey -> akey) (k : Api.kind) (R : gref -> gres (K * Z)) (P : lrec -> Prop).
-Hypothesis HR : restore_ok inj g k R P.
-
-Lemma range_out : forall st fr gs ge ts te ans, sinv st -> keys_ok P st ->
-  (forall t, xroot st = Some t -> fr = walk_fuel (tabs t)) ->
-  kres_out inj (seq_kv R (g_rangeScan fr (xroot st) gs ge ts te ans)) =
-  out_keymap g (seq_out k (run_range (root (sabs st)) gs ge ts te ans)).
-Proof.
-  intros st fr gs ge ts te ans Hs Hk Hf. unfold sinv, keys_ok in *. rewrite sabs_root. destruct (xroot st) as [t|].
-  - rewrite (Hf t eq_refl). apply (seq_kv_out inj g k R P); [apply gen_rangeScan_eq; exact Hs| |exact HR].
-    apply walk_delivered; [apply expand_range_children|apply (stack1 P); exact Hk|constructor].
-  - rewrite gen_rangeScan_nil. reflexivity.
-Qed.
-Lemma filter_out : forall t ff pr pred ans, xtwf t -> Forall P (leaves (tabs t)) -> (forall l, pr l = pred (tabs l)) ->
-  kres_out inj (seq_kv R (g_filter ff (Some t) pr ans)) =
-  out_keymap g (seq_out k (walk (fun l => if pred l then Deliver else Skip) expand_fwd ff [(tabs t, 0%nat)] ans 0 [])).
-Proof.
-  intros t ff pr pred ans Hx Hk Hp. apply (seq_kv_out inj g k R P); [apply gen_filter_eq; assumption| |exact HR].
-  apply walk_delivered; [exact expand_fwd_children|apply (stack1 P); exact Hk|constructor].
-Qed.
-End Scans.
-
-Lemma len0 : forall n, (Z.of_nat n =? 0)%Z = (n =? 0)%nat.
-Proof. intros n. destruct (Z.eqb_spec (Z.of_nat n) 0); destruct (Nat.eqb_spec n 0); try reflexivity; lia. Qed.
-
-(* maximum(t.root) on a non-empty well-formed tree: the leaf the model's maximum finds, one of its leaves *)
-Lemma max_leaf : forall t, xtwf t -> WF 0 (tabs t) ->
-  exists gk tk v, g_maximum (theight (tabs t)) (Some t) = GRet (Some (XLeaf gk tk v)) /\
-    maximum (tabs t) = Some (Leaf gk tk v) /\ In (gk, tk, v) (leaves (tabs t)).
-Proof.
-  intros t Hx Hw. pose proof (gen_maximum_eq (theight (tabs t)) t 0%nat Hx Hw) as He.
-  pose proof (maxleaf_spec _ 0%nat (tabs t) (le_n _) Hw) as Em0. unfold maximum. rewrite Em0 in He.
-  pose proof (WF_nonempty _ _ Hw) as Hne.
-  destruct (rev (leaves (tabs t))) as [|[[gk tk] v] rest] eqn:E.
-  { apply (f_equal (@rev _)) in E. rewrite rev_involutive in E. cbn [rev] in E. congruence. }
-  cbn [hd_error option_map] in *. exists gk, tk, v.
-  destruct (g_maximum (theight (tabs t)) (Some t)) as [[m|]| |]; cbn [gres_map option_map] in He; try discriminate.
-  injection He as Em. unfold to_leaf in Em. cbn [lgk ltk lv fst snd] in Em. apply tabs_leaf_inv in Em. subst m.
-  split; [reflexivity|]. split; [exact Em0|]. apply in_rev.
-  assert (Hin : In (gk, tk, v) (rev (leaves (tabs t)))) by (rewrite E; left; reflexivity). exact Hin.
-Qed.
-
-(* ---------------- Range, the ComparableKeys branch of the template (unsigned, signed, float) ---------------- *)
-Lemma do_range_num : forall k st a b ans, is_num k = true ->
-  do_range k st a b ans =
-  match lex_cmp (fst (transform k a)) (fst (transform k b)) with
-  | Eq => match do_search st (fst (transform k a)) (snd (transform k a)) with
-          | OFound v => OSeq [(a, v)] 1
-          | OAbsent => OSeq [] 0
-          | o => o
-          end
-  | Gt => seq_out k (run_range (root st) (fst (transform k b)) (fst (transform k a)) (fst (transform k b)) (fst (transform k a)) ans)
-  | Lt => seq_out k (run_range (root st) (fst (transform k a)) (fst (transform k b)) (fst (transform k a)) (fst (transform k b)) ans)
-  end.
-Proof. intros [|w|w|w| |s|enc dec] st a b ans H; try discriminate; reflexivity. Qed.
-
-Section NumRange.
-Variable k : Api.kind.
-Hypothesis Hk : is_num k = true.
-Variable gsearch : nat -> gref -> list N -> gres sres.
-Variable search_key : list N -> list N.
-Hypothesis search_eq : forall fuel t keyS, xtwf t -> isbytes keyS = true ->
-  gsearch fuel (Some t) keyS = gres_of_sres (xsearch fuel t keyS keyS 0).
-Hypothesis search_nil : forall fuel keyS, gsearch fuel None keyS = GRet SAbsent.
-Hypothesis key_eq : forall x, search_key x = x.
-Variable R : gref -> gres (akey * Z).
-Hypothesis HR : restore_ok idk idk k R any_key.
-
-(* the text of the template branch, over its own Search, search key and restoreKey *)
-Definition ref_range_num (tr : akey -> list N * list N) (fuel_Search fuel_rangeScan : nat) (root : gref) (start end_ : akey)
-    (ans : nat -> bool) : kres akey :=
-  let startKey := fst (tr start) in
-  let endKey := fst (tr end_) in
-  let c := bytes_compare startKey endKey in
-  let k1 := fun (startKey : list N) (endKey : list N) =>
-    seq_kv R (g_rangeScan fuel_rangeScan root startKey endKey startKey endKey ans) in
-  if Z.eqb c 0%Z then (
-    let yi := O in
-    let yout := (@nil (akey * Z)) in
-    match gsearch fuel_Search root (search_key (snd (tr start))) with
-    | GRet r_2 =>
-    let k2 := fun (val : Z) (ok : bool) =>
-      if negb ok then (
-        KDone ByReturn yi yout
-      ) else (
-        let yr := ans yi in
-        let yout := (start, val) :: yout in
-        let yi := S yi in
-        if negb yr then (
-          KDone ByReturn yi yout
-        ) else (
-          KDone ByEnd yi yout
-        )
-      ) in
-    match r_2 with
-    | SFound v => k2 v true
-    | SAbsent => k2 0%Z false
-    | SFuel => KFuel
-    end
-    | GPanic => KPanic
-    | GFuel => KFuel
-    end
-  ) else (
-    if Z.ltb 0%Z c then (
-      let '(startKey, endKey) := (endKey, startKey) in
-      k1 startKey endKey
-    ) else (
-      k1 startKey endKey
-    )
-  ).
-
-Theorem range_num_out : forall st a b ans fr, sinv st -> isbytes (snd (transform k a)) = true ->
-  (forall t, xroot st = Some t -> fr = walk_fuel (tabs t)) ->
-  kres_out idk (ref_range_num (mtr k) (key_fuel (snd (transform k a))) fr (xroot st) a b ans) = do_range k (sabs st) a b ans.
-Proof.
-  intros st a b ans fr Hs Hb Hf. rewrite (do_range_num k _ a b ans Hk). unfold ref_range_num, mtr. cbv zeta.
-  assert (Hpk : plain_kind k = true) by (destruct k; try discriminate; reflexivity).
-  pose proof (mtr_same k a Hpk) as Esame. unfold mtr in Esame.
-  unfold bytes_compare. destruct (lex_cmp (fst (transform k a)) (fst (transform k b))) eqn:Ec.
-  - change (0 =? 0)%Z with true. cbv iota. rewrite key_eq. unfold do_search. rewrite sabs_root. unfold sinv in Hs.
-    destruct (xroot st) as [t|].
-    + rewrite (search_eq _ t _ Hs Hb), (xsearch_sim _ t _ _ _ Hs), Esame.
-      destruct (search (key_fuel (snd (transform k a))) (tabs t) (snd (transform k a)) (snd (transform k a)) 0) as [v| |];
-        cbn [gres_of_sres negb]; [destruct (ans 0%nat)| |]; reflexivity.
-    + rewrite search_nil. reflexivity.
-  - change (-1 =? 0)%Z with false. change (0 <? -1)%Z with false. cbv iota.
-    rewrite (range_out idk idk k R any_key HR st fr _ _ _ _ ans Hs (keys_ok_any st) Hf). apply out_keymap_id.
-  - change (1 =? 0)%Z with false. change (0 <? 1)%Z with true. cbv iota.
-    rewrite (range_out idk idk k R any_key HR st fr _ _ _ _ ans Hs (keys_ok_any st) Hf). apply out_keymap_id.
-Qed.
-End NumRange.
-
-Lemma search_nil_unsigned : forall fuel keyS, g_unsigned_search fuel None keyS = GRet SAbsent.
-Proof. intros [|f] keyS; reflexivity. Qed.
-Lemma search_nil_signed : forall fuel keyS, g_signed_search fuel None keyS = GRet SAbsent.
-Proof. intros [|f] keyS; reflexivity. Qed.
-Lemma search_nil_float : forall fuel keyS, g_float_search fuel None keyS = GRet SAbsent.
-Proof. intros [|f] keyS; reflexivity. Qed.
-
-(* each of the three instances IS the template text over its own Search / restoreKey *)
-Lemma unsigned_range_text : forall tr rs, g_unsigned_Range akey tr rs =
-  ref_range_num g_unsigned_search g_unsigned_search_key (g_unsigned_restoreKey akey tr rs) tr.
-Proof. reflexivity. Qed.
-Lemma signed_range_text : forall tr rs, g_signed_Range akey tr rs =
-  ref_range_num g_signed_search g_signed_search_key (g_signed_restoreKey akey tr rs) tr.
-Proof. reflexivity. Qed.
-Lemma float_range_text : forall tr rs, g_float_Range akey tr rs =
-  ref_range_num g_float_search g_float_search_key (g_float_restoreKey akey tr rs) tr.
-Proof. reflexivity. Qed.
-
-Theorem gen_unsigned_range_eq : forall w st a b ans fr, sinv st -> isbytes (snd (transform (KUnsigned w) a)) = true ->
-  (forall t, xroot st = Some t -> fr = walk_fuel (tabs t)) ->
-  kres_out idk (g_unsigned_Range akey (mtr (KUnsigned w)) (mrs (KUnsigned w)) (key_fuel (snd (transform (KUnsigned w) a))) fr (xroot st) a b ans) =
-  do_range (KUnsigned w) (sabs st) a b ans.
-Proof.
-  intros w st a b ans fr Hs Hb Hf. rewrite unsigned_range_text.
-  apply (range_num_out (KUnsigned w) eq_refl g_unsigned_search g_unsigned_search_key gen_unsigned_search_eq search_nil_unsigned
-           (fun x => eq_refl)); try assumption.
-  rewrite gen_unsigned_restoreKey_eq. apply ref_restoreKey_ok. reflexivity.
-Qed.
-Theorem gen_signed_range_eq : forall w st a b ans fr, sinv st -> isbytes (snd (transform (KSigned w) a)) = true ->
-  (forall t, xroot st = Some t -> fr = walk_fuel (tabs t)) ->
-  kres_out idk (g_signed_Range akey (mtr (KSigned w)) (mrs (KSigned w)) (key_fuel (snd (transform (KSigned w) a))) fr (xroot st) a b ans) =
-  do_range (KSigned w) (sabs st) a b ans.
-Proof.
-  intros w st a b ans fr Hs Hb Hf. rewrite signed_range_text.
-  apply (range_num_out (KSigned w) eq_refl g_signed_search g_signed_search_key gen_signed_search_eq search_nil_signed
-           (fun x => eq_refl)); try assumption.
-  rewrite gen_signed_restoreKey_eq. apply ref_restoreKey_ok. reflexivity.
-Qed.
-Theorem gen_float_range_eq : forall w st a b ans fr, sinv st -> isbytes (snd (transform (KFloat w) a)) = true ->
-  (forall t, xroot st = Some t -> fr = walk_fuel (tabs t)) ->
-  kres_out idk (g_float_Range akey (mtr (KFloat w)) (mrs (KFloat w)) (key_fuel (snd (transform (KFloat w) a))) fr (xroot st) a b ans) =
-  do_range (KFloat w) (sabs st) a b ans.
-Proof.
-  intros w st a b ans fr Hs Hb Hf. rewrite float_range_text.
-  apply (range_num_out (KFloat w) eq_refl g_float_search g_float_search_key gen_float_search_eq search_nil_float
-           (fun x => eq_refl)); try assumption.
-  rewrite gen_float_restoreKey_eq. apply ref_restoreKey_ok. reflexivity.
-Qed.
-
-(* ---------------- Range, the CompoundKey branch of the template ---------------- *)
-Definition is_cmp (k : Api.kind) : bool := match k with KCompound _ | KCodec _ _ => true | _ => false end.
-Lemma do_range_cmp : forall k st a b ans, is_cmp k = true ->
-  do_range k st a b ans =
-  match root st with
-  | None => OSeq [] 0
-  | Some t =>
-    let sk := fst (transform k a) in
-    let ek := fst (transform k b) in
-    let ek := if (length ek =? 0)%nat
-              then match maximum t with Some l => fst (transform k (restore k l)) | None => [] end
-              else ek in
-    let '(sk, ek) := match lex_cmp sk ek with Gt => (ek, sk) | _ => (sk, ek) end in
-    seq_out k (run_range (root st) sk ek sk ek ans)
-  end.
-Proof. intros [|w|w|w| |s|enc dec] st a b ans H; try discriminate; reflexivity. Qed.
-
-Section CmpRange.
-Variable k : Api.kind.
-Hypothesis Hk : is_cmp k = true.
-Variable R : gref -> gres (akey * Z).
-Hypothesis HR : restore_ok idk idk k R any_key.
-
-Definition ref_range_cmp (tr : akey -> list N * list N) (fuel_maximum fuel_rangeScan : nat) (root : gref) (start end_ : akey)
-    (ans : nat -> bool) : kres akey :=
-  let startKey := fst (tr start) in
-  let endKey := fst (tr end_) in
-  if ref_is_nil (ref_pointer root) then (
-    let yi := O in
-    let yout := (@nil (akey * Z)) in
-    KDone ByEnd yi yout
-  ) else (
-    let k2 := fun (end_ : akey) (endKey : list N) =>
-      let k1 := fun (startKey : list N) (endKey : list N) =>
-        seq_kv R (g_rangeScan fuel_rangeScan root startKey endKey startKey endKey ans) in
-      if Z.ltb 0%Z (bytes_compare startKey endKey) then (
-        let '(startKey, endKey) := (endKey, startKey) in
-        k1 startKey endKey
-      ) else (
-        k1 startKey endKey
-      ) in
-    if Z.eqb (Z.of_nat (List.length endKey)) 0%Z then (
-      match g_maximum fuel_maximum root with
-      | GRet r_2 =>
-      match R r_2 with
-      | GRet r_3 =>
-      let end_ := fst r_3 in
-      let endKey := fst (tr end_) in
-      k2 end_ endKey
-      | GPanic => KPanic
-      | GFuel => KFuel
-      end
-      | GPanic => KPanic
-      | GFuel => KFuel
-      end
-    ) else (
-      k2 end_ endKey
-    )
-  ).
-
-Theorem range_cmp_out : forall st a b ans fm fr, sinv st -> root_wf (sabs st) ->
-  (forall t, xroot st = Some t -> fm = theight (tabs t) /\ fr = walk_fuel (tabs t)) ->
-  kres_out idk (ref_range_cmp (mtr k) fm fr (xroot st) a b ans) = do_range k (sabs st) a b ans.
-Proof.
-  intros st a b ans fm fr Hs Hw Hf. rewrite (do_range_cmp k _ a b ans Hk).
-  assert (Htail : forall sk ek, kres_out idk (seq_kv R (g_rangeScan fr (xroot st) sk ek sk ek ans)) =
-                                seq_out k (run_range (root (sabs st)) sk ek sk ek ans)).
-  { intros sk ek. rewrite (range_out idk idk k R any_key HR st fr _ _ _ _ ans Hs (keys_ok_any st)); [apply out_keymap_id|].
-    intros t Ht. apply (Hf t Ht). }
-  unfold ref_range_cmp, mtr. unfold sinv, root_wf in *. rewrite sabs_root in *.
-  destruct (xroot st) as [t|]; [|reflexivity].
-  destruct (Hf t eq_refl) as [-> _]. cbn [ref_is_nil ref_pointer]. cbv beta iota zeta. rewrite len0.
-  destruct (length (fst (transform k b)) =? 0)%nat.
-  - destruct (max_leaf t Hs Hw) as (gk & tk & v & Hg & Hm & _). rewrite Hg, Hm.
-    destruct (HR gk tk v I) as (kv & Ek & Ei & _). rewrite Ek. unfold idk in Ei. rewrite Ei, cmp_gt.
-    destruct (lex_cmp (fst (transform k a)) (fst (transform k (restore k (Leaf gk tk v))))); apply Htail.
-  - rewrite cmp_gt. destruct (lex_cmp (fst (transform k a)) (fst (transform k b))); apply Htail.
-Qed.
-End CmpRange.
-
-Lemma compound_range_text : forall tr rs, g_compound_Range akey tr rs = ref_range_cmp (g_compound_restoreKey akey tr rs) tr.
-Proof. reflexivity. Qed.
-(* for a schema-described compound key and for an arbitrary user codec *)
-Theorem gen_compound_range_eq : forall k st a b ans fm fr, is_cmp k = true -> sinv st -> root_wf (sabs st) ->
-  (forall t, xroot st = Some t -> fm = theight (tabs t) /\ fr = walk_fuel (tabs t)) ->
-  kres_out idk (g_compound_Range akey (mtr k) (mrs k) fm fr (xroot st) a b ans) = do_range k (sabs st) a b ans.
-Proof.
-  intros k st a b ans fm fr Hk Hs Hw Hf. rewrite compound_range_text. apply range_cmp_out; try assumption.
-  rewrite gen_compound_restoreKey_eq. apply ref_restoreKey_ok. destruct k; try discriminate; reflexivity.
-Qed.
-
-(* ---------------- Range of the alpha tree (the else branch of the template, with AddNullByte) ---------------- *)
-Lemma nonempty_of : forall st t gk tk v, keys_ok nonempty_key st -> xroot st = Some t -> In (gk, tk, v) (leaves (tabs t)) -> gk <> [].
-Proof.
-  intros st t gk tk v Hk Ht Hin. unfold keys_ok in Hk. rewrite Ht in Hk. rewrite Forall_forall in Hk.
-  exact (Hk _ Hin).
-Qed.
-
-Theorem gen_alpha_range_eq : forall tr st a b ans fm fr, sinv st -> root_wf (sabs st) -> keys_ok nonempty_key st ->
-  (forall t, xroot st = Some t -> fm = theight (tabs t) /\ fr = walk_fuel (tabs t)) ->
-  kres_out AB (g_alpha_Range tr alpha_rs fm fr (xroot st) a b ans) = do_range KAlpha (sabs st) (AB a) (AB b) ans.
-Proof.
-  intros tr st a b ans fm fr Hs Hw Hk Hf.
-  assert (Htail : forall s e, kres_out AB (seq_kv (g_alpha_restoreKey tr alpha_rs) (g_rangeScan fr (xroot st) (s ++ [0]) (e ++ [0]) (s ++ [0]) (e ++ [0]) ans)) =
-                              seq_out KAlpha (run_range (root (sabs st)) (s ++ [0]) (e ++ [0]) (s ++ [0]) (e ++ [0]) ans)).
-  { intros s e. rewrite (range_out AB idk KAlpha _ nonempty_key (alpha_restoreKey_ok tr) st fr _ _ _ _ ans Hs Hk); [apply out_keymap_id|].
-    intros t Ht. apply (Hf t Ht). }
-  pose proof (nonempty_of st) as Hne.
-  unfold g_alpha_Range, do_range. unfold sinv, root_wf in *. rewrite sabs_root in *.
-  destruct (xroot st) as [t|]; [|reflexivity].
-  destruct (Hf t eq_refl) as [-> _]. cbn [ref_is_nil ref_pointer akey_bytes]. cbv beta iota zeta. rewrite len0.
-  destruct (length b =? 0)%nat.
-  - destruct (max_leaf t Hs Hw) as (gk & tk & v & Hg & Hm & Hin). rewrite Hg, Hm.
-    rewrite (gen_alpha_restoreKey_eq tr alpha_rs gk tk v (Hne t gk tk v Hk eq_refl Hin)).
-    cbn [fst snd restore leaf_gk akey_bytes]. unfold alpha_rs. rewrite cmp_gt.
-    destruct (lex_cmp a (removelast gk)); apply Htail.
-  - rewrite cmp_gt. destruct (lex_cmp a b); apply Htail.
-Qed.
-
-(* ---------------- Range of the collation tree ---------------- *)
-(* the model takes the sort keys as part of its inputs (AC o c); the Go code computes them with the collator:
-   tr o = (o, col o).  The open end re-collates the ORIGINAL string of the maximum leaf: the model assumes
-   that gives the stored sort key again, here the hypothesis on the maximum. *)
-Theorem gen_collation_range_eq : forall col rs st a b ans fm fr, sinv st -> root_wf (sabs st) ->
-  (forall t m, xroot st = Some t -> maximum (tabs t) = Some m -> col (leaf_gk m) = leaf_tk m) ->
-  (forall t, xroot st = Some t -> fm = theight (tabs t) /\ fr = walk_fuel (tabs t)) ->
-  kres_out AB (g_collation_Range (col_tr col) rs fm fr (xroot st) a b ans) =
-  out_keymap forget_col (do_range KCollation (sabs st) (AC a (col a)) (AC b (col b)) ans).
-Proof.
-  intros col rs st a b ans fm fr Hs Hw Hcol Hf.
-  assert (Htail : forall gs ge ts te, kres_out AB (seq_kv (g_collation_restoreKey (col_tr col) rs) (g_rangeScan fr (xroot st) gs ge ts te ans)) =
-                              out_keymap forget_col (seq_out KCollation (run_range (root (sabs st)) gs ge ts te ans))).
-  { intros gs ge ts te. apply (range_out AB forget_col KCollation _ any_key (collation_restoreKey_ok _ rs) st fr _ _ _ _ ans Hs (keys_ok_any st)).
-    intros t Ht. apply (Hf t Ht). }
-  unfold g_collation_Range, do_range, col_tr. unfold sinv, root_wf in *. rewrite sabs_root in *.
-  destruct (xroot st) as [t|]; [|reflexivity].
-  destruct (Hf t eq_refl) as [-> _]. cbn [ref_is_nil ref_pointer akey_bytes]. cbv beta iota zeta. rewrite len0.
-  destruct (length b =? 0)%nat.
-  - destruct (max_leaf t Hs Hw) as (gk & tk & v & Hg & Hm & Hin). rewrite Hg, Hm.
-    rewrite gen_collation_restoreKey_eq. cbv beta iota zeta. cbn [fst snd restore leaf_gk leaf_tk akey_bytes]. rewrite cmp_gt.
-    pose proof (Hcol t _ eq_refl Hm) as Ec. cbn [leaf_gk leaf_tk] in Ec.
-    destruct (lex_cmp a gk); cbv beta iota zeta; cbn [transform akey_bytes fst snd]; rewrite ?Ec; apply Htail.
-  - cbv beta iota zeta. cbn [akey_bytes]. rewrite cmp_gt. destruct (lex_cmp a b); cbv beta iota zeta; cbn [transform akey_bytes fst snd]; apply Htail.
-Qed.
-
-(* ================= 6. Prefix ================= *)
-(* TranslateIterFacts.gen_lowestCommonParent_eq, with one more conclusion: the node returned is a well-formed raw
-   tree again (it is a subtree), so that the filter scan can be started on it.  Same proof. *)
-Lemma lcp_loop_xtwf : forall fuel t p d dd, xtwf t -> WF dd (tabs t) -> isbytes p = true ->
-  (theight (tabs t) < fuel)%nat ->
-  exists r dep, g_lowestCommonParent_loop1 fuel p (Some t) (Z.of_nat d) = LDone (Some r, dep) /\
-    lcparent fuel (tabs t) p d = Some (tabs r) /\ xtwf r.
-Proof.
-  induction fuel as [|fuel IH]; intros t p d dd Hxt Hwf Hp Hh; [lia|].
-  destruct t as [gk tk v|n].
-  { exists (XLeaf gk tk v), (Z.of_nat d). split; [reflexivity|]. split; [reflexivity|exact Hxt]. }
-  destruct (xtwf_inv _ Hxt) as [Hx Hch]. rewrite tabs_inner in *.
-  cbn [g_lowestCommonParent_loop1 ref_is_nil ref_pointer negb ref_node lcparent].
-  rewrite ref_tag_inner, ikind_not_leaf. cbn [negb].
-  cbv zeta. rewrite nhdr_nabs. cbn [xabs_hdr prefixLen].
-  (* the continuation after the compressed-path test, at depth d1 *)
-  assert (Hk : forall d1,
-    exists r dep,
-      (if (Z.of_nat (length p) <=? Z.of_nat d1)%Z then LDone (Some (XInner n), Z.of_nat d1)
-       else match idx_bytes p (Z.of_nat d1) with
-            | None => LPanic
-            | Some v_2 =>
-              match g_findChild (Some (XInner n)) v_2 with
-              | GRet r_2 =>
-                if ptr_is_nil r_2 then LDone (Some (XInner n), Z.of_nat d1)
-                else match r_2 with
-                     | None => LPanic
-                     | Some v_3 => g_lowestCommonParent_loop1 fuel p v_3 (Z.of_nat d1 + 1)
-                     end
-              | GPanic => LPanic
-              | GFuel => LFuel
-              end
-            end) = LDone (Some r, dep) /\
-      match nth_error p d1 with
-      | None => Some (Inner (nabs n))
-      | Some b => match nfind (nabs n) b with None => Some (Inner (nabs n)) | Some c => lcparent fuel c p (S d1) end
-      end = Some (tabs r) /\ xtwf r).
-  { intros d1. destruct (nth_error p d1) as [b|] eqn:Eb.
-    - assert (Hd1 : (d1 < length p)%nat) by (apply nth_error_Some; rewrite Eb; discriminate).
-      replace (Z.of_nat (length p) <=? Z.of_nat d1)%Z with false by (symmetry; apply Z.leb_gt; lia).
-      rewrite idx_bytes_nat, Eb. pose proof (nth_byte _ _ _ Hp Eb) as Hb.
-      rewrite (gen_findChild_eq n b Hx Hb), (nfind_nabs n b Hx).
-      destruct (xfind n b) as [c|] eqn:Ef; cbn [option_map omap ptr_is_nil].
-      + destruct (xfind_child n b c Hx Ef) as [b' Hin].
-        destruct (WF_child _ _ _ _ Hwf (in_nenum_nabs _ _ _ Hin)) as [Hc _].
-        pose proof (theight_child _ _ _ (in_nenum_nabs _ _ _ Hin)) as Hhc.
-        replace (Z.of_nat d1 + 1)%Z with (Z.of_nat (S d1)) by lia.
-        apply (IH c p (S d1) _ (Hch b' c Hin) Hc Hp). lia.
-      + exists (XInner n), (Z.of_nat d1). split; [reflexivity|]. split; [rewrite tabs_inner; reflexivity|exact Hxt].
-    - apply nth_error_None in Eb.
-      replace (Z.of_nat (length p) <=? Z.of_nat d1)%Z with true by (symmetry; apply Z.leb_le; lia).
-      exists (XInner n), (Z.of_nat d1). split; [reflexivity|]. split; [rewrite tabs_inner; reflexivity|exact Hxt]. }
-  destruct (Nat.eqb_spec (xplen (xh n)) 0) as [Ep|Ep].
-  - replace (hdr_prefixLen (xh n) =? 0) with true by (symmetry; apply N.eqb_eq; unfold hdr_prefixLen; lia).
-    cbn [negb andb]. rewrite Ep, Nat.add_0_r. apply Hk.
-  - replace (hdr_prefixLen (xh n) =? 0) with false by (symmetry; apply N.eqb_neq; unfold hdr_prefixLen; lia).
-    cbn [negb andb].
-    rewrite (gen_prefixMismatch_eq fuel n p d dd Hxt Hwf ltac:(lia)).
-    replace (Z.of_nat (prefixMismatch (nabs n) p d) <? Z.of_N (hdr_prefixLen (xh n)))%Z
-      with (prefixMismatch (nabs n) p d <? xplen (xh n))%nat
-      by (unfold hdr_prefixLen; destruct (Nat.ltb_spec (prefixMismatch (nabs n) p d) (xplen (xh n)));
-          destruct (Z.ltb_spec (Z.of_nat (prefixMismatch (nabs n) p d)) (Z.of_N (N.of_nat (xplen (xh n))))); try reflexivity; lia).
-    destruct (prefixMismatch (nabs n) p d <? xplen (xh n))%nat.
-    + exists (XInner n), (Z.of_nat d). split; [reflexivity|]. split; [rewrite tabs_inner; reflexivity|exact Hxt].
-    + replace (Z.of_nat d + Z.of_N (hdr_prefixLen (xh n)))%Z with (Z.of_nat (d + xplen (xh n))) by (unfold hdr_prefixLen; lia).
-      apply Hk.
-Qed.
-
-(* lowestCommonParent(root, prefix) on a non-nil root: the node the model's descent stops at; no panic, and the
-   budget is enough as soon as it exceeds the height (minimum() inside prefixMismatch is given the same budget) *)
-Lemma lcp_xtwf : forall fuel t p dd, xtwf t -> WF dd (tabs t) -> isbytes p = true ->
-  (theight (tabs t) < fuel)%nat ->
-  exists r, g_lowestCommonParent fuel (Some t) p = GRet (Some r) /\ lcparent fuel (tabs t) p 0 = Some (tabs r) /\ xtwf r.
-Proof.
-  intros fuel t p dd Hxt Hwf Hp Hh.
-  destruct (lcp_loop_xtwf fuel t p 0 dd Hxt Hwf Hp Hh) as (r & dep & Hl & Hm & Hxr).
-  exists r. split; [|split; [exact Hm|exact Hxr]]. unfold g_lowestCommonParent. cbv zeta. cbn [Z.of_nat] in Hl. rewrite Hl. reflexivity.
-Qed.
-
-Lemma lcparent_mono : forall p f t d s, lcparent f t p d = Some s -> lcparent (S f) t p d = Some s.
-Proof.
-  intros p. induction f as [|f IH]; intros t d s H; [discriminate|].
-  destruct t as [gk tk v|n]; [exact H|]. cbn [lcparent] in H. cbn [lcparent].
-  destruct (negb (prefixLen (nhdr n) =? 0)%nat && (prefixMismatch n p d <? prefixLen (nhdr n))%nat); [exact H|].
-  destruct (nth_error p (d + prefixLen (nhdr n))) as [b|]; [|exact H].
-  destruct (nfind n b) as [c|]; [|exact H]. apply IH. exact H.
-Qed.
-Lemma lcparent_mono_le : forall p f f' t d s, (f <= f')%nat -> lcparent f t p d = Some s -> lcparent f' t p d = Some s.
-Proof. intros p f f' t d s Hle. induction Hle as [|f' Hle IH]; intros H; [exact H|]. apply lcparent_mono. apply IH. exact H. Qed.
-
-Lemma in_list_sum : forall x l, In x l -> (x <= list_sum l)%nat.
-Proof.
-  intros x l. induction l as [|y l IH]; intros H; [contradiction|]. cbn [list_sum fold_right]. destruct H as [->|H]; [lia|].
-  specialize (IH H). unfold list_sum in IH. lia.
-Qed.
-Lemma lcparent_tsize : forall p f t d dd s, WF dd t -> lcparent f t p d = Some s -> (tsize s <= tsize t)%nat.
-Proof.
-  intros p. induction f as [|f IH]; intros t d dd s Hw H; [discriminate|].
-  destruct t as [gk tk v|n]; [injection H as <-; lia|]. cbn [lcparent] in H.
-  destruct (negb (prefixLen (nhdr n) =? 0)%nat && (prefixMismatch n p d <? prefixLen (nhdr n))%nat); [injection H as <-; lia|].
-  destruct (nth_error p (d + prefixLen (nhdr n))) as [b|]; [|injection H as <-; lia].
-  destruct (nfind n b) as [c|] eqn:Ef; [|injection H as <-; lia].
-  pose proof (WF_inner_inv _ _ Hw) as (Hn & _).
-  destruct (RangeFacts.nfind_child n b c Hn Ef) as (b' & Hin).
-  destruct (WF_child _ _ _ _ Hw Hin) as [Hwc _].
-  pose proof (IH c _ _ s Hwc H) as Hle.
-  pose proof (size_children n Hn) as Hsz.
-  assert (Hc : (tsize c <= list_sum (map tsize (nchildren n)))%nat).
-  { apply in_list_sum. apply in_map. unfold nchildren. change c with (snd (b', c)). apply in_map. exact Hin. }
-  lia.
-Qed.
-
-(* the filter scan does not depend on its budget once that exceeds the size of the tree *)
-Lemma filter_walk_fuel : forall (pred : tree -> bool) d t ans f1 f2, WF d t -> (tsize t < f1)%nat -> (tsize t < f2)%nat ->
-  walk (fun l => if pred l then Deliver else Skip) expand_fwd f1 [(t, 0%nat)] ans 0 [] =
-  walk (fun l => if pred l then Deliver else Skip) expand_fwd f2 [(t, 0%nat)] ans 0 [].
-Proof.
-  intros pred d t ans f1 f2 Hw H1 H2.
-  rewrite !(walk_gen pred expand_fwd leaves leaves_leaf exp_fwd_ok); try reflexivity;
-    try (constructor; [exists d; exact Hw|constructor]);
-    unfold stack_size; cbn [map fst list_sum fold_right]; lia.
-Qed.
-
-(* the predicate of the alpha tree on the restored pair, against the model's predicate on the leaf; both are false
-   on an empty key and on an inner node (the prefix is not empty) *)
-Lemma alpha_pred_eq : forall tr p, p <> [] -> forall l,
-  pred_restore (g_alpha_restoreKey tr alpha_rs) (fun (k : list N) (_ : Z) => bytes_has_prefix k p) l =
-  has_prefix (akey_bytes (restore KAlpha (tabs l))) p.
-Proof.
-  intros tr p Hp l. unfold pred_restore, bytes_has_prefix. destruct l as [gk tk v|n].
-  - cbn [tabs restore leaf_gk akey_bytes]. destruct gk as [|x gk].
-    + rewrite gen_alpha_restoreKey_empty. cbn [removelast]. destruct p; [congruence|reflexivity].
-    + rewrite gen_alpha_restoreKey_eq by discriminate. reflexivity.
-  - rewrite tabs_inner. cbn [restore leaf_gk akey_bytes removelast g_alpha_restoreKey cast_leaf]. destruct p; [congruence|reflexivity].
-Qed.
-
-Theorem gen_alpha_prefix_eq : forall tr st p ans fa ff fl, sinv st -> root_wf (sabs st) -> keys_ok nonempty_key st ->
-  isbytes p = true ->
-  (forall t, xroot st = Some t -> fa = walk_fuel (tabs t) /\ (tsize (tabs t) < ff)%nat /\
-                                   (theight (tabs t) < fl)%nat /\ (length p + 2 <= fl)%nat) ->
-  kres_out AB (g_alpha_Prefix tr alpha_rs fa ff fl (xroot st) p ans) = do_prefix KAlpha (sabs st) (AB p) ans.
-Proof.
-  intros tr st p ans fa ff fl Hs Hw Hk Hp Hf. unfold g_alpha_Prefix, do_prefix. cbn [akey_bytes]. rewrite len0.
-  destruct (length p =? 0)%nat eqn:El.
-  - unfold g_alpha_All. rewrite (all_out AB idk KAlpha _ nonempty_key (alpha_restoreKey_ok tr) st fa ans Hs Hk); [apply out_keymap_id|].
-    intros t Ht. apply (Hf t Ht).
-  - assert (Hpne : p <> []) by (destruct p; [discriminate|discriminate]).
-    unfold sinv, root_wf, keys_ok in *. rewrite sabs_root in *. destruct (xroot st) as [t|].
-    + destruct (Hf t eq_refl) as (_ & Hff & Hfl & Hfp). cbn [ref_is_nil ref_pointer negb]. cbv beta iota zeta.
-      destruct (lcp_xtwf fl t p 0%nat Hs Hw Hp Hfl) as (r & Hg & Hl & Hxr). rewrite Hg.
-      destruct (lcparent_spec (tabs t) p (S (S (length p))) Hw ltac:(lia)) as (sub & d' & Esub & Hwsub & _).
-      pose proof (lcparent_mono_le p (S (S (length p))) fl (tabs t) 0%nat sub ltac:(lia) Esub) as Esub'. rewrite Hl in Esub'. injection Esub' as <-.
-      rewrite Esub.
-      assert (HkR : Forall nonempty_key (leaves (tabs r))).
-      { apply Forall_forall. intros l Hin. rewrite Forall_forall in Hk. apply Hk. eapply lcparent_sub; eassumption. }
-      rewrite (filter_out AB idk KAlpha _ nonempty_key (alpha_restoreKey_ok tr) r ff _
-                 (fun l => has_prefix (akey_bytes (restore KAlpha l)) p) ans Hxr HkR (alpha_pred_eq tr p Hpne)).
-      rewrite out_keymap_id. unfold run_filter, walk_fuel. f_equal.
-      pose proof (lcparent_tsize p _ _ _ _ _ Hw Esub) as Hsz.
-      apply (filter_walk_fuel _ d'); [exact Hwsub|lia|lia].
-    + reflexivity.
-Qed.
-
-(* collation: no subtree is selected; the filter runs over the whole tree on the original bytes *)
-Lemma collation_pred_eq : forall tr rs p, p <> [] -> forall l,
-  pred_restore (g_collation_restoreKey tr rs) (fun (k : list N) (_ : Z) => let leafKeyS := k in bytes_has_prefix leafKeyS p) l =
-  has_prefix (leaf_gk (tabs l)) p.
-Proof.
-  intros tr rs p Hp l. unfold pred_restore, bytes_has_prefix. destruct l as [gk tk v|n].
-  - reflexivity.
-  - rewrite tabs_inner. cbn [leaf_gk g_collation_restoreKey cast_leaf]. destruct p; [congruence|reflexivity].
-Qed.
-Theorem gen_collation_prefix_eq : forall col rs st p ans fa ff, sinv st ->
-  (forall t, xroot st = Some t -> fa = walk_fuel (tabs t) /\ ff = walk_fuel (tabs t)) ->
-  kres_out AB (g_collation_Prefix (col_tr col) rs fa ff (xroot st) p ans) =
-  out_keymap forget_col (do_prefix KCollation (sabs st) (AC p (col p)) ans).
-Proof.
-  intros col rs st p ans fa ff Hs Hf. unfold g_collation_Prefix, do_prefix. cbn [akey_bytes]. rewrite len0.
-  destruct (length p =? 0)%nat eqn:El.
-  - unfold g_collation_All. apply (all_out AB forget_col KCollation _ any_key (collation_restoreKey_ok _ rs) st fa ans Hs (keys_ok_any st)).
-    intros t Ht. apply (Hf t Ht).
-  - assert (Hpne : p <> []) by (destruct p; [discriminate|discriminate]).
-    unfold sinv in *. rewrite sabs_root. cbv beta iota zeta. unfold col_tr at 1. cbn [fst].
-    destruct (xroot st) as [t|]; [|reflexivity].
-    destruct (Hf t eq_refl) as (_ & ->).
-    apply (filter_out AB forget_col KCollation _ any_key (collation_restoreKey_ok _ rs) t _ _
-             (fun l => has_prefix (leaf_gk l) p) ans Hs).
-    + apply Forall_forall. intros; exact I.
-    + apply collation_pred_eq. exact Hpne.
-Qed.
-
-(* the other four instances: panic("") *)
-Theorem gen_plain_prefix_eq : forall k K (tr : K -> list N * list N) rs (inj : K -> akey) st p p' ans, plain_kind k = true ->
-  kres_out inj (g_unsigned_Prefix K tr rs p ans) = do_prefix k st p' ans /\
-  kres_out inj (g_signed_Prefix K tr rs p ans) = do_prefix k st p' ans /\
-  kres_out inj (g_float_Prefix K tr rs p ans) = do_prefix k st p' ans /\
-  kres_out inj (g_compound_Prefix K tr rs p ans) = do_prefix k st p' ans.
-Proof. intros [|w|w|w| |s|enc dec] K tr rs inj st p p' ans H; try discriminate; repeat split. Qed.
-
-(* ================= 7. All, Backward, TopK, BottomK, Minimum, Maximum, Size: the six instances ================= *)
-Definition gint_out (r : gres Z) : out := match r with GRet z => OSize z | GPanic => OPanic | GFuel => OFuel end.
-
-Section PlainWrap.   (* unsigned, signed, float, compound: restoreKey is the template text without AddNullByte *)
-Variable k : Api.kind.
-Hypothesis Hk : plain_kind k = true.
-Let R := ref_restoreKey (mrs k).
-Let HR : restore_ok idk idk k R any_key := ref_restoreKey_ok k Hk.
-
-Lemma plain_all : forall st fa ans, sinv st -> (forall t, xroot st = Some t -> fa = walk_fuel (tabs t)) ->
-  kres_out idk (seq_kv R (g_all fa (xroot st) ans)) = seq_out k (run_all (root (sabs st)) ans).
-Proof. intros st fa ans Hs Hf. rewrite (all_out idk idk k R any_key HR st fa ans Hs (keys_ok_any st) Hf). apply out_keymap_id. Qed.
-Lemma plain_backward : forall st fb ans, sinv st -> (forall t, xroot st = Some t -> fb = walk_fuel (tabs t)) ->
-  kres_out idk (seq_kv R (g_backward fb (xroot st) ans)) = seq_out k (run_backward (root (sabs st)) ans).
-Proof. intros st fb ans Hs Hf. rewrite (backward_out idk idk k R any_key HR st fb ans Hs (keys_ok_any st) Hf). apply out_keymap_id. Qed.
-Lemma plain_topk : forall st fa fb n ans, sinv st -> n < 2 ^ 64 -> (forall t, xroot st = Some t -> fb = walk_fuel (tabs t)) ->
-  kres_out idk (seq_kv R (g_topK (g_all fa (xroot st)) (g_backward fb (xroot st)) n ans)) =
-  seq_out k (run_bounded (run_backward (root (sabs st))) n ans).
-Proof. intros st fa fb n ans Hs Hn Hf. rewrite (topk_out idk idk k R any_key HR st fa fb n ans Hs (keys_ok_any st) Hn Hf). apply out_keymap_id. Qed.
-Lemma plain_bottomk : forall st fa fb n ans, sinv st -> n < 2 ^ 64 -> (forall t, xroot st = Some t -> fa = walk_fuel (tabs t)) ->
-  kres_out idk (seq_kv R (g_bottomK (g_all fa (xroot st)) (g_backward fb (xroot st)) n ans)) =
-  seq_out k (run_bounded (run_all (root (sabs st))) n ans).
-Proof. intros st fa fb n ans Hs Hn Hf. rewrite (bottomk_out idk idk k R any_key HR st fa fb n ans Hs (keys_ok_any st) Hn Hf). apply out_keymap_id. Qed.
-Lemma plain_minimum : forall st fm, sinv st -> root_wf (sabs st) -> (forall t, xroot st = Some t -> fm = theight (tabs t)) ->
-  gopt_out idk (ref_extreme R g_minimum fm (xroot st)) = snd (step k (sabs st) Minimum).
-Proof. intros st fm Hs Hw Hf. rewrite (minimum_out idk idk k R any_key HR st fm Hs Hw (keys_ok_any st) Hf). apply out_keymap_id. Qed.
-Lemma plain_maximum : forall st fm, sinv st -> root_wf (sabs st) -> (forall t, xroot st = Some t -> fm = theight (tabs t)) ->
-  gopt_out idk (ref_extreme R g_maximum fm (xroot st)) = snd (step k (sabs st) Maximum).
-Proof. intros st fm Hs Hw Hf. rewrite (maximum_out idk idk k R any_key HR st fm Hs Hw (keys_ok_any st) Hf). apply out_keymap_id. Qed.
-End PlainWrap.
-
-(* ---- unsignedSortedTree ---- *)
-Theorem gen_unsigned_all_eq : forall w st fa ans, sinv st -> (forall t, xroot st = Some t -> fa = walk_fuel (tabs t)) ->
-  kres_out idk (g_unsigned_All akey (mtr (KUnsigned w)) (mrs (KUnsigned w)) fa (xroot st) ans) = seq_out (KUnsigned w) (run_all (root (sabs st)) ans).
-Proof. intros w st fa ans Hs Hf. unfold g_unsigned_All. rewrite gen_unsigned_restoreKey_eq. apply (plain_all (KUnsigned w) eq_refl); assumption. Qed.
-Theorem gen_unsigned_backward_eq : forall w st fb ans, sinv st -> (forall t, xroot st = Some t -> fb = walk_fuel (tabs t)) ->
-  kres_out idk (g_unsigned_Backward akey (mtr (KUnsigned w)) (mrs (KUnsigned w)) fb (xroot st) ans) = seq_out (KUnsigned w) (run_backward (root (sabs st)) ans).
-Proof. intros w st fb ans Hs Hf. unfold g_unsigned_Backward. rewrite gen_unsigned_restoreKey_eq. apply (plain_backward (KUnsigned w) eq_refl); assumption. Qed.
-Theorem gen_unsigned_topk_eq : forall w st fa fb n ans, sinv st -> n < 2 ^ 64 -> (forall t, xroot st = Some t -> fb = walk_fuel (tabs t)) ->
-  kres_out idk (g_unsigned_TopK akey (mtr (KUnsigned w)) (mrs (KUnsigned w)) fa fb (xroot st) n ans) = seq_out (KUnsigned w) (run_bounded (run_backward (root (sabs st))) n ans).
-Proof. intros w st fa fb n ans Hs Hn Hf. unfold g_unsigned_TopK. rewrite gen_unsigned_restoreKey_eq. apply (plain_topk (KUnsigned w) eq_refl); assumption. Qed.
-Theorem gen_unsigned_bottomk_eq : forall w st fa fb n ans, sinv st -> n < 2 ^ 64 -> (forall t, xroot st = Some t -> fa = walk_fuel (tabs t)) ->
-  kres_out idk (g_unsigned_BottomK akey (mtr (KUnsigned w)) (mrs (KUnsigned w)) fa fb (xroot st) n ans) = seq_out (KUnsigned w) (run_bounded (run_all (root (sabs st))) n ans).
-Proof. intros w st fa fb n ans Hs Hn Hf. unfold g_unsigned_BottomK. rewrite gen_unsigned_restoreKey_eq. apply (plain_bottomk (KUnsigned w) eq_refl); assumption. Qed.
-Lemma unsigned_minimum_text : forall K tr rs, g_unsigned_Minimum K tr rs = ref_extreme (g_unsigned_restoreKey K tr rs) g_minimum.
-Proof. reflexivity. Qed.
-Lemma unsigned_maximum_text : forall K tr rs, g_unsigned_Maximum K tr rs = ref_extreme (g_unsigned_restoreKey K tr rs) g_maximum.
-Proof. reflexivity. Qed.
-Theorem gen_unsigned_minimum_eq : forall w st fm, sinv st -> root_wf (sabs st) -> (forall t, xroot st = Some t -> fm = theight (tabs t)) ->
-  gopt_out idk (g_unsigned_Minimum akey (mtr (KUnsigned w)) (mrs (KUnsigned w)) fm (xroot st)) = snd (step (KUnsigned w) (sabs st) Minimum).
-Proof. intros w st fm Hs Hw Hf. rewrite unsigned_minimum_text, gen_unsigned_restoreKey_eq. apply (plain_minimum (KUnsigned w) eq_refl); assumption. Qed.
-Theorem gen_unsigned_maximum_eq : forall w st fm, sinv st -> root_wf (sabs st) -> (forall t, xroot st = Some t -> fm = theight (tabs t)) ->
-  gopt_out idk (g_unsigned_Maximum akey (mtr (KUnsigned w)) (mrs (KUnsigned w)) fm (xroot st)) = snd (step (KUnsigned w) (sabs st) Maximum).
-Proof. intros w st fm Hs Hw Hf. rewrite unsigned_maximum_text, gen_unsigned_restoreKey_eq. apply (plain_maximum (KUnsigned w) eq_refl); assumption. Qed.
-Theorem gen_unsigned_size_eq : forall w K (tr : K -> list N * list N) rs st, gint_out (g_unsigned_Size K tr rs (xsize st)) = snd (step (KUnsigned w) (sabs st) Size).
-Proof. reflexivity. Qed.
-
-(* ---- signedSortedTree ---- *)
-Theorem gen_signed_all_eq : forall w st fa ans, sinv st -> (forall t, xroot st = Some t -> fa = walk_fuel (tabs t)) ->
-  kres_out idk (g_signed_All akey (mtr (KSigned w)) (mrs (KSigned w)) fa (xroot st) ans) = seq_out (KSigned w) (run_all (root (sabs st)) ans).
-Proof. intros w st fa ans Hs Hf. unfold g_signed_All. rewrite gen_signed_restoreKey_eq. apply (plain_all (KSigned w) eq_refl); assumption. Qed.
-Theorem gen_signed_backward_eq : forall w st fb ans, sinv st -> (forall t, xroot st = Some t -> fb = walk_fuel (tabs t)) ->
-  kres_out idk (g_signed_Backward akey (mtr (KSigned w)) (mrs (KSigned w)) fb (xroot st) ans) = seq_out (KSigned w) (run_backward (root (sabs st)) ans).
-Proof. intros w st fb ans Hs Hf. unfold g_signed_Backward. rewrite gen_signed_restoreKey_eq. apply (plain_backward (KSigned w) eq_refl); assumption. Qed.
-Theorem gen_signed_topk_eq : forall w st fa fb n ans, sinv st -> n < 2 ^ 64 -> (forall t, xroot st = Some t -> fb = walk_fuel (tabs t)) ->
-  kres_out idk (g_signed_TopK akey (mtr (KSigned w)) (mrs (KSigned w)) fa fb (xroot st) n ans) = seq_out (KSigned w) (run_bounded (run_backward (root (sabs st))) n ans).
-Proof. intros w st fa fb n ans Hs Hn Hf. unfold g_signed_TopK. rewrite gen_signed_restoreKey_eq. apply (plain_topk (KSigned w) eq_refl); assumption. Qed.
-Theorem gen_signed_bottomk_eq : forall w st fa fb n ans, sinv st -> n < 2 ^ 64 -> (forall t, xroot st = Some t -> fa = walk_fuel (tabs t)) ->
-  kres_out idk (g_signed_BottomK akey (mtr (KSigned w)) (mrs (KSigned w)) fa fb (xroot st) n ans) = seq_out (KSigned w) (run_bounded (run_all (root (sabs st))) n ans).
-Proof. intros w st fa fb n ans Hs Hn Hf. unfold g_signed_BottomK. rewrite gen_signed_restoreKey_eq. apply (plain_bottomk (KSigned w) eq_refl); assumption. Qed.
-Lemma signed_minimum_text : forall K tr rs, g_signed_Minimum K tr rs = ref_extreme (g_signed_restoreKey K tr rs) g_minimum.
-Proof. reflexivity. Qed.
-Lemma signed_maximum_text : forall K tr rs, g_signed_Maximum K tr rs = ref_extreme (g_signed_restoreKey K tr rs) g_maximum.
-Proof. reflexivity. Qed.
-Theorem gen_signed_minimum_eq : forall w st fm, sinv st -> root_wf (sabs st) -> (forall t, xroot st = Some t -> fm = theight (tabs t)) ->
-  gopt_out idk (g_signed_Minimum akey (mtr (KSigned w)) (mrs (KSigned w)) fm (xroot st)) = snd (step (KSigned w) (sabs st) Minimum).
-Proof. intros w st fm Hs Hw Hf. rewrite signed_minimum_text, gen_signed_restoreKey_eq. apply (plain_minimum (KSigned w) eq_refl); assumption. Qed.
-Theorem gen_signed_maximum_eq : forall w st fm, sinv st -> root_wf (sabs st) -> (forall t, xroot st = Some t -> fm = theight (tabs t)) ->
-  gopt_out idk (g_signed_Maximum akey (mtr (KSigned w)) (mrs (KSigned w)) fm (xroot st)) = snd (step (KSigned w) (sabs st) Maximum).
-Proof. intros w st fm Hs Hw Hf. rewrite signed_maximum_text, gen_signed_restoreKey_eq. apply (plain_maximum (KSigned w) eq_refl); assumption. Qed.
-Theorem gen_signed_size_eq : forall w K (tr : K -> list N * list N) rs st, gint_out (g_signed_Size K tr rs (xsize st)) = snd (step (KSigned w) (sabs st) Size).
-Proof. reflexivity. Qed.
-
-(* ---- floatSortedTree ---- *)
-Theorem gen_float_all_eq : forall w st fa ans, sinv st -> (forall t, xroot st = Some t -> fa = walk_fuel (tabs t)) ->
-  kres_out idk (g_float_All akey (mtr (KFloat w)) (mrs (KFloat w)) fa (xroot st) ans) = seq_out (KFloat w) (run_all (root (sabs st)) ans).
-Proof. intros w st fa ans Hs Hf. unfold g_float_All. rewrite gen_float_restoreKey_eq. apply (plain_all (KFloat w) eq_refl); assumption. Qed.
-Theorem gen_float_backward_eq : forall w st fb ans, sinv st -> (forall t, xroot st = Some t -> fb = walk_fuel (tabs t)) ->
-  kres_out idk (g_float_Backward akey (mtr (KFloat w)) (mrs (KFloat w)) fb (xroot st) ans) = seq_out (KFloat w) (run_backward (root (sabs st)) ans).
-Proof. intros w st fb ans Hs Hf. unfold g_float_Backward. rewrite gen_float_restoreKey_eq. apply (plain_backward (KFloat w) eq_refl); assumption. Qed.
-Theorem gen_float_topk_eq : forall w st fa fb n ans, sinv st -> n < 2 ^ 64 -> (forall t, xroot st = Some t -> fb = walk_fuel (tabs t)) ->
-  kres_out idk (g_float_TopK akey (mtr (KFloat w)) (mrs (KFloat w)) fa fb (xroot st) n ans) = seq_out (KFloat w) (run_bounded (run_backward (root (sabs st))) n ans).
-Proof. intros w st fa fb n ans Hs Hn Hf. unfold g_float_TopK. rewrite gen_float_restoreKey_eq. apply (plain_topk (KFloat w) eq_refl); assumption. Qed.
-Theorem gen_float_bottomk_eq : forall w st fa fb n ans, sinv st -> n < 2 ^ 64 -> (forall t, xroot st = Some t -> fa = walk_fuel (tabs t)) ->
-  kres_out idk (g_float_BottomK akey (mtr (KFloat w)) (mrs (KFloat w)) fa fb (xroot st) n ans) = seq_out (KFloat w) (run_bounded (run_all (root (sabs st))) n ans).
-Proof. intros w st fa fb n ans Hs Hn Hf. unfold g_float_BottomK. rewrite gen_float_restoreKey_eq. apply (plain_bottomk (KFloat w) eq_refl); assumption. Qed.
-Lemma float_minimum_text : forall K tr rs, g_float_Minimum K tr rs = ref_extreme (g_float_restoreKey K tr rs) g_minimum.
-Proof. reflexivity. Qed.
-Lemma float_maximum_text : forall K tr rs, g_float_Maximum K tr rs = ref_extreme (g_float_restoreKey K tr rs) g_maximum.
-Proof. reflexivity. Qed.
-Theorem gen_float_minimum_eq : forall w st fm, sinv st -> root_wf (sabs st) -> (forall t, xroot st = Some t -> fm = theight (tabs t)) ->
-  gopt_out idk (g_float_Minimum akey (mtr (KFloat w)) (mrs (KFloat w)) fm (xroot st)) = snd (step (KFloat w) (sabs st) Minimum).
-Proof. intros w st fm Hs Hw Hf. rewrite float_minimum_text, gen_float_restoreKey_eq. apply (plain_minimum (KFloat w) eq_refl); assumption. Qed.
-Theorem gen_float_maximum_eq : forall w st fm, sinv st -> root_wf (sabs st) -> (forall t, xroot st = Some t -> fm = theight (tabs t)) ->
-  gopt_out idk (g_float_Maximum akey (mtr (KFloat w)) (mrs (KFloat w)) fm (xroot st)) = snd (step (KFloat w) (sabs st) Maximum).
-Proof. intros w st fm Hs Hw Hf. rewrite float_maximum_text, gen_float_restoreKey_eq. apply (plain_maximum (KFloat w) eq_refl); assumption. Qed.
-Theorem gen_float_size_eq : forall w K (tr : K -> list N * list N) rs st, gint_out (g_float_Size K tr rs (xsize st)) = snd (step (KFloat w) (sabs st) Size).
-Proof. reflexivity. Qed.
-
-(* ---- compoundSortedTree ---- *)
-Theorem gen_compound_all_eq : forall k st fa ans, is_cmp k = true -> sinv st -> (forall t, xroot st = Some t -> fa = walk_fuel (tabs t)) ->
-  kres_out idk (g_compound_All akey (mtr k) (mrs k) fa (xroot st) ans) = seq_out k (run_all (root (sabs st)) ans).
-Proof. intros k st fa ans Hc Hs Hf. assert (Hpk : plain_kind k = true) by (destruct k; try discriminate; reflexivity). unfold g_compound_All. rewrite gen_compound_restoreKey_eq. apply (plain_all k Hpk); assumption. Qed.
-Theorem gen_compound_backward_eq : forall k st fb ans, is_cmp k = true -> sinv st -> (forall t, xroot st = Some t -> fb = walk_fuel (tabs t)) ->
-  kres_out idk (g_compound_Backward akey (mtr k) (mrs k) fb (xroot st) ans) = seq_out k (run_backward (root (sabs st)) ans).
-Proof. intros k st fb ans Hc Hs Hf. assert (Hpk : plain_kind k = true) by (destruct k; try discriminate; reflexivity). unfold g_compound_Backward. rewrite gen_compound_restoreKey_eq. apply (plain_backward k Hpk); assumption. Qed.
-Theorem gen_compound_topk_eq : forall k st fa fb n ans, is_cmp k = true -> sinv st -> n < 2 ^ 64 -> (forall t, xroot st = Some t -> fb = walk_fuel (tabs t)) ->
-  kres_out idk (g_compound_TopK akey (mtr k) (mrs k) fa fb (xroot st) n ans) = seq_out k (run_bounded (run_backward (root (sabs st))) n ans).
-Proof. intros k st fa fb n ans Hc Hs Hn Hf. assert (Hpk : plain_kind k = true) by (destruct k; try discriminate; reflexivity). unfold g_compound_TopK. rewrite gen_compound_restoreKey_eq. apply (plain_topk k Hpk); assumption. Qed.
-Theorem gen_compound_bottomk_eq : forall k st fa fb n ans, is_cmp k = true -> sinv st -> n < 2 ^ 64 -> (forall t, xroot st = Some t -> fa = walk_fuel (tabs t)) ->
-  kres_out idk (g_compound_BottomK akey (mtr k) (mrs k) fa fb (xroot st) n ans) = seq_out k (run_bounded (run_all (root (sabs st))) n ans).
-Proof. intros k st fa fb n ans Hc Hs Hn Hf. assert (Hpk : plain_kind k = true) by (destruct k; try discriminate; reflexivity). unfold g_compound_BottomK. rewrite gen_compound_restoreKey_eq. apply (plain_bottomk k Hpk); assumption. Qed.
-Lemma compound_minimum_text : forall K tr rs, g_compound_Minimum K tr rs = ref_extreme (g_compound_restoreKey K tr rs) g_minimum.
-Proof. reflexivity. Qed.
-Lemma compound_maximum_text : forall K tr rs, g_compound_Maximum K tr rs = ref_extreme (g_compound_restoreKey K tr rs) g_maximum.
-Proof. reflexivity. Qed.
-Theorem gen_compound_minimum_eq : forall k st fm, is_cmp k = true -> sinv st -> root_wf (sabs st) -> (forall t, xroot st = Some t -> fm = theight (tabs t)) ->
-  gopt_out idk (g_compound_Minimum akey (mtr k) (mrs k) fm (xroot st)) = snd (step k (sabs st) Minimum).
-Proof. intros k st fm Hc Hs Hw Hf. assert (Hpk : plain_kind k = true) by (destruct k; try discriminate; reflexivity). rewrite compound_minimum_text, gen_compound_restoreKey_eq. apply (plain_minimum k Hpk); assumption. Qed.
-Theorem gen_compound_maximum_eq : forall k st fm, is_cmp k = true -> sinv st -> root_wf (sabs st) -> (forall t, xroot st = Some t -> fm = theight (tabs t)) ->
-  gopt_out idk (g_compound_Maximum akey (mtr k) (mrs k) fm (xroot st)) = snd (step k (sabs st) Maximum).
-Proof. intros k st fm Hc Hs Hw Hf. assert (Hpk : plain_kind k = true) by (destruct k; try discriminate; reflexivity). rewrite compound_maximum_text, gen_compound_restoreKey_eq. apply (plain_maximum k Hpk); assumption. Qed.
-Theorem gen_compound_size_eq : forall k K (tr : K -> list N * list N) rs st, gint_out (g_compound_Size K tr rs (xsize st)) = snd (step k (sabs st) Size).
-Proof. reflexivity. Qed.
-
-(* ---- alphaSortedTree ---- *)
-Theorem gen_alpha_all_eq : forall tr st fa ans, sinv st -> keys_ok nonempty_key st -> (forall t, xroot st = Some t -> fa = walk_fuel (tabs t)) ->
-  kres_out AB (g_alpha_All tr alpha_rs fa (xroot st) ans) = seq_out KAlpha (run_all (root (sabs st)) ans).
-Proof. intros tr st fa ans Hs Hk Hf. unfold g_alpha_All. rewrite (all_out AB idk KAlpha _ nonempty_key (alpha_restoreKey_ok tr) st fa ans Hs Hk Hf). apply out_keymap_id. Qed.
-Theorem gen_alpha_backward_eq : forall tr st fb ans, sinv st -> keys_ok nonempty_key st -> (forall t, xroot st = Some t -> fb = walk_fuel (tabs t)) ->
-  kres_out AB (g_alpha_Backward tr alpha_rs fb (xroot st) ans) = seq_out KAlpha (run_backward (root (sabs st)) ans).
-Proof. intros tr st fb ans Hs Hk Hf. unfold g_alpha_Backward. rewrite (backward_out AB idk KAlpha _ nonempty_key (alpha_restoreKey_ok tr) st fb ans Hs Hk Hf). apply out_keymap_id. Qed.
-Theorem gen_alpha_topk_eq : forall tr st fa fb n ans, sinv st -> keys_ok nonempty_key st -> n < 2 ^ 64 -> (forall t, xroot st = Some t -> fb = walk_fuel (tabs t)) ->
-  kres_out AB (g_alpha_TopK tr alpha_rs fa fb (xroot st) n ans) = seq_out KAlpha (run_bounded (run_backward (root (sabs st))) n ans).
-Proof. intros tr st fa fb n ans Hs Hk Hn Hf. unfold g_alpha_TopK. rewrite (topk_out AB idk KAlpha _ nonempty_key (alpha_restoreKey_ok tr) st fa fb n ans Hs Hk Hn Hf). apply out_keymap_id. Qed.
-Theorem gen_alpha_bottomk_eq : forall tr st fa fb n ans, sinv st -> keys_ok nonempty_key st -> n < 2 ^ 64 -> (forall t, xroot st = Some t -> fa = walk_fuel (tabs t)) ->
-  kres_out AB (g_alpha_BottomK tr alpha_rs fa fb (xroot st) n ans) = seq_out KAlpha (run_bounded (run_all (root (sabs st))) n ans).
-Proof. intros tr st fa fb n ans Hs Hk Hn Hf. unfold g_alpha_BottomK. rewrite (bottomk_out AB idk KAlpha _ nonempty_key (alpha_restoreKey_ok tr) st fa fb n ans Hs Hk Hn Hf). apply out_keymap_id. Qed.
-Lemma alpha_minimum_text : forall tr rs, g_alpha_Minimum tr rs = ref_extreme (g_alpha_restoreKey tr rs) g_minimum.
-Proof. reflexivity. Qed.
-Lemma alpha_maximum_text : forall tr rs, g_alpha_Maximum tr rs = ref_extreme (g_alpha_restoreKey tr rs) g_maximum.
-Proof. reflexivity. Qed.
-Theorem gen_alpha_minimum_eq : forall tr st fm, sinv st -> root_wf (sabs st) -> keys_ok nonempty_key st -> (forall t, xroot st = Some t -> fm = theight (tabs t)) ->
-  gopt_out AB (g_alpha_Minimum tr alpha_rs fm (xroot st)) = snd (step KAlpha (sabs st) Minimum).
-Proof. intros tr st fm Hs Hw Hk Hf. rewrite alpha_minimum_text. rewrite (minimum_out AB idk KAlpha _ nonempty_key (alpha_restoreKey_ok tr) st fm Hs Hw Hk Hf). apply out_keymap_id. Qed.
-Theorem gen_alpha_maximum_eq : forall tr st fm, sinv st -> root_wf (sabs st) -> keys_ok nonempty_key st -> (forall t, xroot st = Some t -> fm = theight (tabs t)) ->
-  gopt_out AB (g_alpha_Maximum tr alpha_rs fm (xroot st)) = snd (step KAlpha (sabs st) Maximum).
-Proof. intros tr st fm Hs Hw Hk Hf. rewrite alpha_maximum_text. rewrite (maximum_out AB idk KAlpha _ nonempty_key (alpha_restoreKey_ok tr) st fm Hs Hw Hk Hf). apply out_keymap_id. Qed.
-Theorem gen_alpha_size_eq : forall tr rs st, gint_out (g_alpha_Size tr rs (xsize st)) = snd (step KAlpha (sabs st) Size).
-Proof. reflexivity. Qed.
-
-(* ---- collationSortedTree ---- *)
-Theorem gen_collation_all_eq : forall tr rs st fa ans, sinv st -> (forall t, xroot st = Some t -> fa = walk_fuel (tabs t)) ->
-  kres_out AB (g_collation_All tr rs fa (xroot st) ans) = out_keymap forget_col (seq_out KCollation (run_all (root (sabs st)) ans)).
-Proof. intros tr rs st fa ans Hs Hf. unfold g_collation_All. apply (all_out AB forget_col KCollation _ any_key (collation_restoreKey_ok tr rs) st fa ans Hs (keys_ok_any st) Hf). Qed.
-Theorem gen_collation_backward_eq : forall tr rs st fb ans, sinv st -> (forall t, xroot st = Some t -> fb = walk_fuel (tabs t)) ->
-  kres_out AB (g_collation_Backward tr rs fb (xroot st) ans) = out_keymap forget_col (seq_out KCollation (run_backward (root (sabs st)) ans)).
-Proof. intros tr rs st fb ans Hs Hf. unfold g_collation_Backward. apply (backward_out AB forget_col KCollation _ any_key (collation_restoreKey_ok tr rs) st fb ans Hs (keys_ok_any st) Hf). Qed.
-Theorem gen_collation_topk_eq : forall tr rs st fa fb n ans, sinv st -> n < 2 ^ 64 -> (forall t, xroot st = Some t -> fb = walk_fuel (tabs t)) ->
-  kres_out AB (g_collation_TopK tr rs fa fb (xroot st) n ans) = out_keymap forget_col (seq_out KCollation (run_bounded (run_backward (root (sabs st))) n ans)).
-Proof. intros tr rs st fa fb n ans Hs Hn Hf. unfold g_collation_TopK. apply (topk_out AB forget_col KCollation _ any_key (collation_restoreKey_ok tr rs) st fa fb n ans Hs (keys_ok_any st) Hn Hf). Qed.
-Theorem gen_collation_bottomk_eq : forall tr rs st fa fb n ans, sinv st -> n < 2 ^ 64 -> (forall t, xroot st = Some t -> fa = walk_fuel (tabs t)) ->
-  kres_out AB (g_collation_BottomK tr rs fa fb (xroot st) n ans) = out_keymap forget_col (seq_out KCollation (run_bounded (run_all (root (sabs st))) n ans)).
-Proof. intros tr rs st fa fb n ans Hs Hn Hf. unfold g_collation_BottomK. apply (bottomk_out AB forget_col KCollation _ any_key (collation_restoreKey_ok tr rs) st fa fb n ans Hs (keys_ok_any st) Hn Hf). Qed.
-Lemma collation_minimum_text : forall tr rs, g_collation_Minimum tr rs = ref_extreme (g_collation_restoreKey tr rs) g_minimum.
-Proof. reflexivity. Qed.
-Lemma collation_maximum_text : forall tr rs, g_collation_Maximum tr rs = ref_extreme (g_collation_restoreKey tr rs) g_maximum.
-Proof. reflexivity. Qed.
-Theorem gen_collation_minimum_eq : forall tr rs st fm, sinv st -> root_wf (sabs st) -> (forall t, xroot st = Some t -> fm = theight (tabs t)) ->
-  gopt_out AB (g_collation_Minimum tr rs fm (xroot st)) = out_keymap forget_col (snd (step KCollation (sabs st) Minimum)).
-Proof. intros tr rs st fm Hs Hw Hf. rewrite collation_minimum_text. apply (minimum_out AB forget_col KCollation _ any_key (collation_restoreKey_ok tr rs) st fm Hs Hw (keys_ok_any st) Hf). Qed.
-Theorem gen_collation_maximum_eq : forall tr rs st fm, sinv st -> root_wf (sabs st) -> (forall t, xroot st = Some t -> fm = theight (tabs t)) ->
-  gopt_out AB (g_collation_Maximum tr rs fm (xroot st)) = out_keymap forget_col (snd (step KCollation (sabs st) Maximum)).
-Proof. intros tr rs st fm Hs Hw Hf. rewrite collation_maximum_text. apply (maximum_out AB forget_col KCollation _ any_key (collation_restoreKey_ok tr rs) st fm Hs Hw (keys_ok_any st) Hf). Qed.
-Theorem gen_collation_size_eq : forall tr rs st, gint_out (g_collation_Size tr rs (xsize st)) = snd (step KCollation (sabs st) Size).
-Proof. reflexivity. Qed.
-
-
-(* the four instances without HasPrefix, one by one *)
-Theorem gen_unsigned_prefix_eq : forall w K (tr : K -> list N * list N) rs inj st p p' ans,
-  kres_out inj (g_unsigned_Prefix K tr rs p ans) = do_prefix (KUnsigned w) st p' ans.
-Proof. reflexivity. Qed.
-Theorem gen_signed_prefix_eq : forall w K (tr : K -> list N * list N) rs inj st p p' ans,
-  kres_out inj (g_signed_Prefix K tr rs p ans) = do_prefix (KSigned w) st p' ans.
-Proof. reflexivity. Qed.
-Theorem gen_float_prefix_eq : forall w K (tr : K -> list N * list N) rs inj st p p' ans,
-  kres_out inj (g_float_Prefix K tr rs p ans) = do_prefix (KFloat w) st p' ans.
-Proof. reflexivity. Qed.
-Theorem gen_compound_prefix_eq : forall k K (tr : K -> list N * list N) rs inj st p p' ans, is_cmp k = true ->
-  kres_out inj (g_compound_Prefix K tr rs p ans) = do_prefix k st p' ans.
-Proof. intros [|w|w|w| |s|enc dec] K tr rs inj st p p' ans H; try discriminate; reflexivity. Qed.
 
 (* ================= 8. restoreKey against Api.restore, all six ================= *)
 Theorem gen_restoreKey_model : forall gk tk v,
@@ -1206,3 +140,4 @@ Print Assumptions gen_alpha_prefix_eq.
 Print Assumptions gen_collation_prefix_eq.
 Print Assumptions gen_unsigned_maximum_eq.
 Print Assumptions gen_alpha_topk_eq.
+
